@@ -96,6 +96,56 @@ def _(s):
         _ACTION_CONTEXT.reset(self._parent_token)
         self._parent_token = None''')
 
+@mutant("c07_safeunicode_no_except", "eliot/_util.py")
+def _(s):
+    return rep(s, "    try:\n        return str(o)\n    except:", "    try:\n        return str(o)\n    except ZeroDivisionError:")
+
+@mutant("c07_report_try_removed", "eliot/_output.py")
+def _(s):
+    return rep(s, """            except:
+                # Nothing we can do here, raising exception to caller will""", """            except ZeroDivisionError:
+                # Nothing we can do here, raising exception to caller will""")
+
+@mutant("c07_dest_except_narrow", "eliot/_output.py")
+def _(s):
+    return rep(s, """                dest(message)
+            except Exception as e:""", """                dest(message)
+            except (ValueError, TypeError, KeyError) as e:""")
+
+@mutant("c07_serializer_except_narrow", "eliot/_output.py")
+def _(s):
+    return rep(s, """                serializer.serialize(dictionary)
+        except:
+            write_traceback(self)""", """                serializer.serialize(dictionary)
+        except KeyError:
+            write_traceback(self)""")
+
+@mutant("c07_extractor_except_removed", "eliot/_errors.py")
+def _(s):
+    return rep(s, """                try:
+                    return extractor(exception)
+                except:""", """                try:
+                    return extractor(exception)
+                except ZeroDivisionError:""")
+
+@mutant("c08_report_reports", "eliot/_output.py")
+def _(s):
+    return rep(s, "                if not is_destination_error_message:\n                    errors.append(e)",
+               "                errors.append(e)")
+
+@mutant("c08_stop_after_first_failure", "eliot/_output.py")
+def _(s):
+    return rep(s, "                if not is_destination_error_message:\n                    errors.append(e)",
+               "                if not is_destination_error_message:\n                    errors.append(e)\n                break")
+
+@mutant("c08_report_once_per_message", "eliot/_output.py")
+def _(s):
+    return rep(s, "        for exception in errors:\n", "        for exception in errors[:1]:\n")
+
+@mutant("c08_reverse_order", "eliot/_output.py")
+def _(s):
+    return rep(s, "        for dest in self._destinations:\n            try:", "        for dest in reversed(self._destinations):\n            try:")
+
 def main():
     name = sys.argv[1]
     d = sys.argv[2] if len(sys.argv) > 2 else "/tmp/mut"
